@@ -88,6 +88,8 @@ fn main() {
         let line = line.unwrap();
         alloc::reset_peak();
         let r = panic::catch_unwind(|| run_line(&line)).unwrap_or_else(|_| "PANIC".to_string());
+        // a decoder that answered differently when fed through a reader (one byte, seven bytes, 4 KiB per call) than from the slice
+        let r = if ops_codec::take_reader_mismatch() && r != "PANIC" { "READER-MISMATCH".to_string() } else { r };
         if with_peak {
             writeln!(out, "{} peak={}", r, alloc::peak()).unwrap();
         } else {
